@@ -155,7 +155,7 @@ Definition ep_deposit (s : pd) (c tok amt : Z) : result (pd * outs) :=
   do l <- side_of_token tok;
   let s1 := set_tr s l (bal_tr s l + amt) in                         (* increase_balance *)
   do price <- calculate_price s1;
-  check (price =? 0) || (c_minp (p_cfg s) <=? price) || negb l else EGuard;
+  check (p_ab s1 =? 0) || (c_minp (p_cfg s) <=? price) || negb l else EGuard;
   (* mint_and_send_redeem_token *)
   let s2 := set_supply s1 l (supply s1 l + amt) in
   let s3 := set_hold s2 l (aset (hold s2 l) c (held s2 l c + amt)) in
